@@ -179,6 +179,11 @@ def _cls_of(spec, op):
     if "cls" in op:
         return op["cls"]
     oid = op.get("obj")
+    if oid is None and op.get("sol"):
+        for o in spec["ops"]:
+            if o["op"] == "call" and o.get("sol") == op["sol"]:
+                oid = o["obj"]
+                break
     for o in spec["ops"]:
         if o["op"] == "new" and o["obj"] == oid:
             return o["cls"]
@@ -403,7 +408,7 @@ def judge_c05(spec, hist, refs):
             if not (out[0] == "exc" and out[1] == op["expect"]):
                 add("I9", i, op, {"kind": "bad-constructor", "expected": op["expect"],
                                   "got": list(out[:3]) if out[0] == "exc" else "constructed",
-                                  "which": "unknown" if "zzz_unknown_parameter" in repr(op.get("kw")) else "missing"})
+                                  "which": "missing" if op.get("missing") else "unknown", "kw": [k for k, _ in op.get("kw", {}).get("d", [])]})
             continue
         if op["op"] == "call" and out[0] == "ok" and op["obj"] not in tainted:
             pts = dec(op["pts"])
